@@ -241,12 +241,21 @@ PROPS = {
                       "lines skipped, every trimmed line starting with 'PKGNAME=' closes the block collected so far, each record is built from "
                       "its own block only (the buffer restarts empty), records are in input order, and the first I/O error or rejected block "
                       "fails the whole read (never a partial list); KeyValue::visit_str is proved to map every key to the trimmed text after "
-                      "the first '=' of the LAST line carrying that (trimmed) key, ignoring lines without '='. The per-field mapping of the serde "
-                      "Deserialize impl (scalar / list fields, the three error cases) is NOT under contract: it is pinned (watch) and decided only "
-                      "by the bounded stand-in (differential search against a field-level oracle) when it changes.",
-        "level_note": VERUS_TRUST + "BufRead::lines as an uninterpreted sequence of Ok(text)/Err lines; str::trim uninterpreted (trimmed); str::lines, "
-                      "split_once('='), starts_with(literal) shims; HashMap<String,String> key model and 'a String is determined by its chars' axioms; "
-                      "impl Deserialize for ScanIndex and str_to_index (serde generics, macro_rules accessors) watched, not verified: index_of(block) is uninterpreted.",
+                      "the first '=' of the LAST line carrying that (trimmed) key, ignoring lines without '='. impl Deserialize for ScanIndex (its local "
+                      "macro_rules accessors expanded mechanically, the Option/iterator combinator chains written out as matches and one loop) "
+                      "returns exactly index_of(text): pkgname from PKGNAME (absent: rejected), pkg_location through PkgPath::new (invalid: rejected), "
+                      "all_depends the whitespace-separated items through Depend::new in order (first invalid item: rejected), the eleven scalar "
+                      "fields the value of their own key, scan_depends / multi_version the whitespace-separated items, absent keys None / empty, "
+                      "depends empty; str_to_index returns index_of(input) with every rejection as an error. index_of is a defined function, "
+                      "so scan_spec is the statement end to end.",
+        "level_note": VERUS_TRUST + "BufRead::lines as an uninterpreted sequence of Ok(text)/Err lines; str::trim and str::split_whitespace uninterpreted "
+                      "(trimmed, words); str::lines, split_once('='), starts_with(literal) shims; HashMap<String,String> key model and 'a String is "
+                      "determined by its chars' axioms; serde is a unit-local model (traits Deserializer/DeError; de_text(d): the text a deserializer "
+                      "hands to visit_str - StrDeserializer::new(input) hands input; deserialize_str(KeyValue) is visit_str on that text); the "
+                      "combinator chains of the accessor macros (Option::map/map_or/map_or_else/transpose/ok_or, Result::map_err, "
+                      "split_whitespace().map(F).collect()) by rules D9.map_get_* with their documented std behaviour; PkgName::new / PkgPath::new / "
+                      "Depend::new abstracted as functions of their argument (pkgname_of / pkgpath_of / depend_of; their full contracts are proved "
+                      "in units pkgname and pkgpath, properties C18 / C19); PathBuf::from(&str) has the str's UTF-8 bytes.",
     },
     "C17": {
         "units": ["dewey", "pkgname", "pattern", "plist", "summary", "distinfo", "pkgdb", "pkgpath", "scanindex", "digest"],
@@ -264,9 +273,8 @@ PROPS = {
         "level_note": VERUS_TRUST + "all assumed std contracts and world functions of the ten units (their shims are assumed not to panic when their stated "
                       "preconditions hold); 'promptly' is proved as termination only, not as a time bound; allocation failure and stack depth are outside the model "
                       "(alternate_match recursion depth is bounded by the number of '{' in the pattern).",
-        "not_under_contract": ["impl Deserialize for ScanIndex and ScanIndex::str_to_index (serde glue, watched)", "the RustCrypto cores behind Digest::hash_* (external crates; modelled, C13)",
-                               "Display / Error::source / PartialEq impls of the error types (DeweyError, DigestError, PlistError, SummaryError, MissingVariable)",
-                               "SummaryStream::entries_mut (returns &mut Vec)", "KeyValue::expecting", "Display for SummaryValue",
+        "not_under_contract": ["the RustCrypto cores behind Digest::hash_* (external crates; modelled, C13)",
+                               "thiserror-generated Display / Error::source impls of DigestError, PlistError, SummaryError, PatternError, DependError, PkgPathError",
                                "derive-generated Debug/Clone/PartialEq/Hash/Ord impls", "serde Serialize/Deserialize derives"],
     },
     "C19": {
